@@ -2803,6 +2803,8 @@ int hwloc_topology_export_xml(hwloc_topology_t topology, const char *filename, u
   }
 
   hwloc_internal_distances_refresh(topology);
+  /* also drop memory attribute values whose target or initiator disappeared */
+  hwloc_internal_memattrs_refresh(topology);
 
   hwloc_localeswitch_init();
 
@@ -2843,6 +2845,8 @@ int hwloc_topology_export_xmlbuffer(hwloc_topology_t topology, char **xmlbuffer,
   }
 
   hwloc_internal_distances_refresh(topology);
+  /* also drop memory attribute values whose target or initiator disappeared */
+  hwloc_internal_memattrs_refresh(topology);
 
   hwloc_localeswitch_init();
 
